@@ -24,7 +24,8 @@ REQUIRED = {"suite_runs": 1, "contract_tour_length_evaluated": 20, "tour_evaluat
             "corner_asymmetric": 20, "dtype_boundary_instances": 50,
             "bound_attained_lower": 20, "bound_attained_upper": 20,
             "instances_all_perms": 20, "multiplier_instances": 30,
-            "size_window_instances": 10,
+            "size_window_instances": 10, "big_kernel_tours": 6,
+            "instances_named_like_a_shipped_one": 20,
             "instances_from_tsplib_text": 50,
             "input_layout[F]": 30, "input_layout[T-view]": 30,
             "input_layout[strided]": 30}
@@ -34,6 +35,34 @@ REQUIRED = {"suite_runs": 1, "contract_tour_length_evaluated": 20, "tour_evaluat
 # process-wide contracts of vlib/monitors (see vlib/suite.py)
 SUITE_TESTS = ['tests/tsp/test_tour_length.py']
 SUITE_DOMAINS = ['tsp']
+
+
+SHIPPED_BY_N = {14: ["burma14"], 16: ["ulysses16"], 17: ["gr17", "br17"],
+                21: ["gr21"], 22: ["ulysses22"], 24: ["gr24"],
+                26: ["fri26"], 29: ["bayg29", "bays29"]}
+
+
+def big_kernel(ctx, rng):
+    """Tours of 2^11 / 2^12 cities through the length kernel (a plain
+    matrix built by numpy; the Instance constructor is quadratic in pure
+    Python and would take minutes at this size)."""
+    from moptipyapps.tsp.tour_length import tour_length
+    n = int(rng.choice([2047, 2048, 2049, 2051, 4096, 4099]))
+    hi = int(rng.choice([9, 10 ** 6, 10 ** 12]))
+    m = rng.integers(0, hi + 1, (n, n), dtype=np.int64)
+    np.fill_diagonal(m, 0)
+    for _ in range(3):
+        x = rng.permutation(n).astype(np.int64 if rng.integers(2)
+                                      else np.int16)
+        ctx.case()
+        ctx.count("big_kernel_tours")
+        v = tour_length(m, x)
+        xi = x.astype(np.int64)
+        want = int(m[np.roll(xi, 1), xi].sum())
+        if int(v) != want:
+            ctx.violation("tour-length-differs",
+                          f"tour_length on {n} cities = {v}, cyclic edge sum "
+                          f"= {want}", ctx.shard_replay_case(what="big"))
 
 
 def plan(tier: str, seed: int):
@@ -172,6 +201,11 @@ def one_instance(ctx, m, tag, mult, in_dtype, all_perms, layout=None):
     # every other instance shares its name with others of the same size
     iname = f"rnd{n}" if rng.integers(2) else (
         "v" + format(int(rng.integers(1 << 30)), "x"))
+    if n in SHIPPED_BY_N and rng.integers(2):
+        # ... or carries the name of a shipped TSPLIB instance of that size
+        # (tables of published optima are keyed by name)
+        iname = str(rng.choice(SHIPPED_BY_N[n]))
+        ctx.count("instances_named_like_a_shipped_one")
     inst = Instance(iname, 0, arr,
                     mult)
     ctx.count("instances")
@@ -302,8 +336,11 @@ def one_instance(ctx, m, tag, mult, in_dtype, all_perms, layout=None):
 
 def run_shard(ctx, args):
     rng = ctx.rng
+    big_kernel(ctx, rng)
     for it in range(args["n"]):
         n = int(rng.choice([2, 2, 3, 3, 4, 5, 6, 7, 8, 10, 13, 17, 25, 40]))
+        if it % 10 == 7:
+            n = int(rng.choice(sorted(SHIPPED_BY_N)))
         if it % 40 == 11:
             # city counts around 2^6, 2^7, 2^8: index types change there
             n = int(rng.choice([63, 64, 65, 127, 128, 129, 255, 256, 257]))
